@@ -16,7 +16,7 @@ RULE = ('case = sequence of 8-40 operations (get, get_or_compute, forced, raisin
         'every computed value unique. non-trivial = sequence containing a hit after a store AND (a damage op followed by an access, or a '
         'sub-cache/other-key access between store and hit); distinct = hash(op sequence)')
 REQUIRED = ['ops', 'hits', 'computes', 'forced_replacements', 'get_absent', 'get_present', 'raising_computers', 'damage_then_access',
-            'truncations_recovered', 'swaps_reported', 'subcache_ops', 'roundtrips_checked', 'wrong_shape_json_recovered', 'held_values_rechecked']
+            'truncations_recovered', 'swaps_reported', 'subcache_ops', 'roundtrips_checked', 'wrong_shape_json_recovered', 'held_values_rechecked', 'forced_with_equal_value_of_other_json_type']
 ASSUMPTIONS = ['a damaged file that still loads to exactly the stored value counts as intact',
                'swap (foreign-key file) is only applied to JsonCache, the only cache type that records the key',
                'which exception type reports a foreign-key file is not checked; InMemoryCache is used from one thread']
@@ -92,7 +92,7 @@ def gen_ops(rng, kind):
         elif r < 0.55:
             ops.append({'op': 'goc', 'key': k, 'sub': sub})
         elif r < 0.65:
-            ops.append({'op': 'goc', 'key': k, 'sub': sub, 'force': True})
+            ops.append({'op': 'goc', 'key': k, 'sub': sub, 'force': True, 'morph': rng.random() < 0.3})
         elif r < 0.72:
             ops.append({'op': 'goc', 'key': k, 'sub': sub, 'raises': True, 'force': rng.random() < 0.4})
         elif kind != 'memory':
@@ -231,6 +231,13 @@ def run_sequence(kind, ops, res: CaseResult):
             my_uid = uid[0]
             calls = []
             value = gen_payload(random.Random(my_uid * 7919 + len(ops)), kind, my_uid)
+            if op.get('morph') and ent is not None and ent['state'] == 'ok' and kind.startswith('json'):
+                # the forced recomputation returns a value that python considers EQUAL to the stored one but that is another JSON value (1 / 1.0 / true)
+                from .c06 import type_morph
+                mv = type_morph(ent['value'])
+                if mv is not None:
+                    value = mv
+                    res.count('forced_with_equal_value_of_other_json_type')
 
             def computer():
                 calls.append(1)
